@@ -583,16 +583,20 @@ def instances(tier, seed):
         fix_cases = [(ctv[(17 * (seed + j)) % len(ctv)], p, 0) for j, p in enumerate([(0, 1, 2), (2, 0, 1), (1, 0, 2), (2, 1, 0)])]
         fix_cases += [(((0, 0), (0, 0), (0, 0)), (0, 1, 2), 0), (((0, 1), (1, 2), (0, 2)), (1, 2, 0), 0)]
     else:
-        fix_cases = [(tv, p, 0) for i, tv in enumerate(ctv) if i % 3 == seed % 3 for p in itertools.permutations(range(3))]
-        fix_cases += [(tv, p, 51) for i, tv in enumerate(ctv) if i % 9 == seed % 9 for p in ((0, 1, 2), (2, 0, 1))]
+        # attempt_bottleneck_fix is only reached after a non-optimal allocation, which needs two ranges alive at a common time
+        colive = lambda tv: any(a[0] <= b[1] and b[0] <= a[1] for i, a in enumerate(tv) for b in tv[i + 1:])  # noqa
+        fix_cases = [(tv, p, 0) for i, tv in enumerate(ctv) if i % 3 == seed % 3 and colive(tv) for p in itertools.permutations(range(3))]
+        fix_cases += [(tv, p, 51) for i, tv in enumerate(ctv) if i % 9 == seed % 9 and colive(tv) for p in ((0, 1, 2), (2, 0, 1))]
     for tv, perm, stuck in fix_cases:
         out.append(dict(key="hc_fix_perm/%s/p%s/stuck%d" % (tk(tv), "".join(map(str, perm)), stuck), fn="hc_fix_perm",
                         params=dict(times=[list(t) for t in tv], aligns=[16, 64, 16], stuck=stuck, perm=list(perm)), weight=300))
     if quick:
         alloc_cases = [(((0, 1), (0, 1)), 1), (((0, 0), (0, 1)), 1), (((0, 1), (1, 1)), 1)]
     else:
-        alloc_cases = [(tv, 1) for tv in (((0, 1), (1, 2), (0, 2)), ((0, 0), (0, 1), (1, 1)), ((0, 2), (0, 0), (2, 2)), ((0, 1), (0, 1), (0, 1)))]
-        alloc_cases += [(tv, 2) for tv in (((0, 1), (0, 1)), ((0, 0), (0, 1)), ((0, 1), (1, 1)))]
+        # whole allocate() runs: one search iteration with an arbitrary RNG.  Two iterations (122 000 paths, 48 min per instance) and three
+        # mutually co-live ranges (> 15 min) were measured and left out: the step lemmas (hc_indices for every permutation, hc_search_step,
+        # hc_fix_perm) carry the longer histories
+        alloc_cases = [(tv, 1) for tv in (((0, 1), (1, 2), (0, 2)), ((0, 0), (0, 1), (1, 1)), ((0, 2), (0, 0), (2, 2)), ((0, 1), (0, 1)), ((0, 0), (0, 1)), ((0, 1), (1, 1)))]
     for tv, iters in alloc_cases:
         out.append(dict(key="hc_allocate/%s/it%d" % (tk(tv), iters), fn="hc_allocate",
                         params=dict(times=[list(t) for t in tv], aligns=[16, 64, 16][:len(tv)], iters=iters), weight=1000))
